@@ -7,6 +7,7 @@ package link
 
 import (
 	"bufio"
+	"bytes"
 	"context"
 	"errors"
 	"io"
@@ -146,7 +147,14 @@ func (r *Reader) nextSegment(avail int) int {
 	}
 }
 
+// Tick, when set, is called at the start of every Read of every Reader: the
+// time the link takes (C07's clock phase moves the simulated clock here).
+var Tick func()
+
 func (r *Reader) Read(buf []byte) (int, error) {
+	if Tick != nil {
+		Tick()
+	}
 	r.Calls++
 	if r.KeepBufs {
 		r.lastBuf = append(r.lastBuf, buf)
@@ -444,7 +452,13 @@ func (k *Conn) SetReadDeadline(t time.Time) error {
 }
 
 func WrapReader(c *sim.Ctx, r *Reader) (io.Reader, string) {
-	switch c.T.Pick(6, 1, 1, 1, 1, 1, 1) {
+	switch c.T.Pick(6, 1, 1, 1, 1, 1, 1, 1) {
+	case 7:
+		slack := 1 + c.T.Int(3)
+		if r.EndErr == io.EOF && r.limit == len(r.data) && c.T.Bool(1, 2) {
+			slack = 0
+		}
+		return StdView(c, r, slack)
 	case 6:
 		return &Conn{R: r}, "connection (Read + Close + deadlines)"
 	case 5:
@@ -459,6 +473,21 @@ func WrapReader(c *sim.Ctx, r *Reader) (io.Reader, string) {
 		return struct{ io.Reader }{r}, "anonymous io.Reader"
 	}
 	return r, "link.Reader"
+}
+
+// StdView shows the reader through one of the standard library's pass-through
+// readers, none of which buffers: an *io.LimitedReader whose limit lies `slack`
+// bytes past everything the reader holds, an io.TeeReader, an io.MultiReader
+// with an empty second part. Byte counting at r stays exact. slack 0 is only
+// for readers that end with io.EOF (the limit then reports the same end).
+func StdView(c *sim.Ctx, r *Reader, slack int) (io.Reader, string) {
+	switch c.T.Int(3) {
+	case 1:
+		return io.TeeReader(r, io.Discard), "io.TeeReader"
+	case 2:
+		return io.MultiReader(r, bytes.NewReader(nil)), "io.MultiReader"
+	}
+	return io.LimitReader(r, int64(len(r.data)-r.pos+slack)), "io.LimitedReader"
 }
 
 // FancyWriter offers WriteString, WriteByte and ReadFrom in addition to Write;
